@@ -206,6 +206,9 @@ type caseRun struct {
 	textI, textT   string
 	tOnlyNonEmpty  bool
 	crossNI, equal bool
+	// remote mode: a side read through Get holds entries outside DEFAULT / has an instance without entries
+	// (which Get cannot show: the reconciler then sees a RIB without that instance)
+	remoteVRF, remoteEmptyNI bool
 }
 
 func runCase(c CCase) (*caseRun, error) {
@@ -238,13 +241,49 @@ func runCase(c CCase) (*caseRun, error) {
 			cr.tOnlyNonEmpty = true
 		}
 	}
+	for _, side := range []struct {
+		remote bool
+		nis    []int
+		ops    []drv.OpSpec
+	}{{c.Remote == "I" || c.Remote == "B", cr.nisI, cr.opsI}, {c.Remote == "T" || c.Remote == "B", cr.nisT, cr.opsT}} {
+		if !side.remote {
+			continue
+		}
+		used := map[int]bool{}
+		for _, o := range side.ops {
+			used[o.NI] = true
+			if o.NI != 1 {
+				cr.remoteVRF = true
+			}
+		}
+		for _, n := range side.nis {
+			if !used[n] {
+				cr.remoteEmptyNI = true
+			}
+		}
+	}
 	bad := func(f string, a ...any) { cr.problems = append(cr.problems, fmt.Sprintf(f, a...)) }
 
 	// ---- the real reconciler
 	id := &atomic.Uint64{}
 	id.Store(c.Base)
-	rec := reconciler.New(reconciler.NewLocalRIB(ri), reconciler.NewLocalRIB(rt))
-	ro, err := rec.Reconcile(context.Background(), id)
+	// each side as a LocalRIB or, in remote mode, behind a RemoteRIB reading the same rib.RIB through a
+	// real server (remote.go); everything below is the same in both modes
+	remI, remT := c.Remote == "I" || c.Remote == "B", c.Remote == "T" || c.Remote == "B"
+	ti, stopI, err := ribTarget(ri, remI, c.Dial)
+	if err != nil {
+		return nil, fmt.Errorf("serving the intended RIB: %v", err)
+	}
+	defer stopI()
+	tt, stopT, err := ribTarget(rt, remT, c.Dial)
+	if err != nil {
+		return nil, fmt.Errorf("serving the target RIB: %v", err)
+	}
+	defer stopT()
+	rec := reconciler.New(ti, tt)
+	ctx, cancel := context.WithTimeout(context.Background(), rpcTimeout)
+	defer cancel()
+	ro, err := rec.Reconcile(ctx, id)
 	if err != nil || ro == nil {
 		bad("Reconcile returned an error: %v", err)
 		ro = reconciler.NewReconcileOps()
@@ -313,12 +352,28 @@ func runCase(c CCase) (*caseRun, error) {
 	if after != cr.textI {
 		bad("after reconciliation the target differs from the intended RIB:\n-- intended\n%s-- target\n%s", cr.textI, after)
 	}
+	// reconciling again (the target read anew, through the transport in remote mode) gives nothing
+	id2 := &atomic.Uint64{}
+	id2.Store(c.Base)
+	if again, err := rec.Reconcile(ctx, id2); err != nil || again == nil {
+		bad("the second Reconcile returned an error: %v", err)
+	} else if n := countOps(again); len(cr.problems) == 0 && (n != 0 || id2.Load() != c.Base) {
+		bad("after a successful reconciliation a second Reconcile returned %d operations (id counter %d, base %d)", n, id2.Load(), c.Base)
+	}
 	cont, err := rt.RIBContents()
 	if err != nil {
 		return nil, err
 	}
 	cr.final = drv.CanonCoq(drv.Canon(cont), rt.VerifRefCounts())
 	return cr, nil
+}
+
+func countOps(ro *reconciler.ReconcileOps) int {
+	n := 0
+	for _, l := range inLists(ro) {
+		n += len(l.ops)
+	}
+	return n
 }
 
 func coqOps(l []drv.OpSpec) string {
@@ -360,7 +415,7 @@ func runC15(args []string) error {
 			return err
 		}
 	} else {
-		g := &gen{r: drv.NewRng(*f.Seed)}
+		g := &gen{r: drv.NewRng(*f.Seed), rm: drv.NewRng(*f.Seed ^ 0x15c15)}
 		for i := 0; i < *f.N; i++ {
 			cases = append(cases, g.genCase())
 		}
@@ -375,7 +430,7 @@ func runC15(args []string) error {
 			// the two RIBs of a case are reference-closed by construction and installed dependencies first: an
 			// operation that is not acknowledged at once while they are built is a failure of the implementation
 			rep.Violations = append(rep.Violations, drv.Verdict{Case: i, Problem: "building a reference-closed RIB, dependencies first: " + err.Error()})
-			empty := CCase{Base: c.Base, Prof: c.Prof}
+			empty := CCase{Base: c.Base, Prof: c.Prof, Remote: c.Remote, Dial: c.Dial}
 			cr, err = runCase(empty) // keeps the model comparison aligned with cases.json
 			if err != nil {
 				return fmt.Errorf("case %d: %v", i, err)
@@ -388,6 +443,17 @@ func runC15(args []string) error {
 		}
 		coq = append(coq, cr.coq(c))
 		rep.Stats["prof_"+c.Prof]++
+		if c.Remote != "" {
+			rep.Stats["remote_side_"+c.Remote]++
+			rep.Stats["remote_prof_"+c.Prof]++
+			rep.Stats["remote_transport_"+map[bool]string{true: "tls_dial", false: "bufconn_stub"}[c.Dial]]++
+			if cr.remoteVRF {
+				rep.Stats["remote_side_holds_vrf_entries"]++
+			}
+			if cr.remoteEmptyNI {
+				rep.Stats["remote_side_has_empty_instance"]++
+			}
+		}
 		rep.Stats[fmt.Sprintf("instances_target_%d", len(cr.nisT))]++
 		if len(cr.nisT) > len(cr.nisI) {
 			rep.Stats["target_only_instance"]++
@@ -422,6 +488,7 @@ func runC15(args []string) error {
 		}
 	}
 	rep.Nontrivial = len(distinct)
+	rep.Stats["remote_get_rpcs"] = int(getRPCs.Load())
 	if err := drv.WriteJSON(*f.Out+"/cases.json", cases); err != nil {
 		return err
 	}
